@@ -139,6 +139,13 @@ where
   T: Send + Clone + 'static,
 {
   fn clone(&self) -> Self {
+    // A handle that was closed no longer counts towards its side; neither does its clone.
+    if self.closed.load(Ordering::Acquire) {
+      return Self {
+        dispatcher: self.dispatcher.clone(),
+        closed: AtomicBool::new(true),
+      };
+    }
     self.dispatcher.sender_count.fetch_add(1, Ordering::Relaxed);
     Self {
       dispatcher: self.dispatcher.clone(),
@@ -358,7 +365,10 @@ where
   T: Send + Clone + 'static,
 {
   fn clone(&self) -> Self {
-    if let Some(dispatcher) = self.dispatcher.upgrade() {
+    // A receiver that was closed no longer counts as a receiver; its clone is a dead receiver too.
+    if !self.closed.load(Ordering::Acquire)
+      && let Some(dispatcher) = self.dispatcher.upgrade()
+    {
       dispatcher.receiver_count.fetch_add(1, Ordering::Relaxed);
 
       // Get the capacity from the existing consumer.
